@@ -404,8 +404,9 @@ send_disconnect = Spec(
     # (event counts are facts about the callee's own run: checked here, vacuous when used as a callee contract)
     ensures=[('one-disconnect-packet', lambda c: z3.BoolVal(c.ex.spec is not send_disconnect or
                                                             len(c.events('send_packet')) == 1))],
-    raises={'ProtocolError': lambda c: z3.And(c.is_none(c.oldv('_send_encryption')),
-                                              c.old('_send_seq') == 0xffffffff)})
+    # called from inside the `except DisconnectError` clauses of _recv_data / _reap_task: nothing may escape, not
+    # even send_packet's own 'sequence rollover' ProtocolError (finding fixed by 0222390)
+    raises={})
 
 ICONN = dict(RCONN, logger='obj:Logger')
 internal_error = Spec(
@@ -1241,7 +1242,8 @@ parse_supported2.feasible_timeout_ms = 300
 # counted as a proof) feeds nested SEQUENCEs of growing depth to the real der_decode under /venv/bin/python.
 _NEST_PROBE = r'''
 import json, sys
-from asyncssh.asn1 import der_decode, ASN1DecodeError
+import asyncssh
+from asyncssh.asn1 import der_decode, der_decode_partial, ASN1DecodeError
 def nest(d):
     inner = b''
     for _ in range(d):
@@ -1260,6 +1262,15 @@ for d in (10, 100, 300, 600, 1200, 5000):
         pass
     except BaseException as e:
         bad.append('der_decode(%d nested SEQUENCEs, %d bytes) raised %s' % (d, len(data), type(e).__name__))
+    # the same obligation for the other documented entry points that reach the recursive decoder
+    for fn, doc in ((der_decode_partial, ASN1DecodeError), (asyncssh.import_public_key, asyncssh.KeyImportError),
+                    (asyncssh.import_private_key, asyncssh.KeyImportError)):
+        try:
+            fn(data)
+        except doc:
+            pass
+        except BaseException as e:
+            bad.append('%s(%d nested SEQUENCEs, %d bytes) raised %s' % (fn.__name__, d, len(data), type(e).__name__))
 print(json.dumps(bad))
 '''
 
@@ -1274,4 +1285,4 @@ def extra_checks(tier, seed):
         bad = json.loads(p.stdout.strip().splitlines()[-1])
     except Exception as e:        # harness trouble is never a verdict
         return {'bounded': [{'name': name, 'inputs': 0, 'violations': [], 'error': repr(e)}]}
-    return {'bounded': [{'name': name, 'inputs': 6, 'violations': bad}]}
+    return {'bounded': [{'name': name, 'inputs': 24, 'violations': bad}]}
